@@ -49,6 +49,16 @@ CHECKS = {
         "components": COMPONENTS,
         "assumptions": ["copying or serialising a secret nonce (documented misuse) is out of scope", "callbacks return (no longjmp out of the illegal callback)"],
     },
+    "C14": {
+        "worlds": [{"name": "swap", "variants": {"quick": ["ship", "asan"], "thorough": ["ship", "asan", "alt"]},
+                    "runs": {"quick": 10000, "thorough": 500000}, "secondary_share": 0.15}],
+        "rule": "one run = one seeded Plan: 1..4 concurrent adaptor-signature swaps (key/message classes incl. 1, n-1, 0, >= n), nonce-callback faults, erased key records, "
+                "network faults incl. misdelivery between swaps and third-party s-malleation of the published signature; non-trivial = a fault fired and a provenance/model "
+                "comparison happened after it; distinct = distinct Plan hash",
+        "components": COMPONENTS,
+        "assumptions": ["acceptance over crafted scalars / points beyond what corruption and misdelivery produce is input-space and not decided",
+                        "the DLEQ proof is not recomputed by the model; accept/reject expectations come from provenance"],
+    },
     "C15": {
         "worlds": [{"name": "aex", "variants": {"quick": ["ship", "asan"], "thorough": ["ship", "asan", "alt"]},
                     "runs": {"quick": 8000, "thorough": 400000}, "secondary_share": 0.1}],
